@@ -204,6 +204,18 @@ impl<Fut: Future> FuturesOrderedBounded<Fut> {
     }
 }
 
+#[cfg(futures_buffered_verif)]
+impl<Fut: Future> FuturesOrderedBounded<Fut> {
+    /// Seeds both position counters of an empty queue, as if `start` futures had already
+    /// passed through it. Verification harness only.
+    #[doc(hidden)]
+    pub fn __verif_set_position(&mut self, start: usize) {
+        assert!(self.is_empty());
+        self.next_incoming_index = Wrapping(start);
+        self.next_outgoing_index = Wrapping(start);
+    }
+}
+
 impl<Fut: Future> Stream for FuturesOrderedBounded<Fut> {
     type Item = Fut::Output;
 
@@ -226,6 +238,8 @@ impl<Fut: Future> Stream for FuturesOrderedBounded<Fut> {
 
             this.next_outgoing_index.0 ^= MSB;
             this.next_incoming_index.0 ^= MSB;
+            #[cfg(futures_buffered_verif)]
+            crate::verif::hit(crate::verif::Hit::OrderedRebase);
         }
 
         // Check to see if we've already received the next value
